@@ -9,7 +9,7 @@ patch = f"/tmp/mut/{prop}.{k}.patch.diff"
 demo = f"/tmp/mut/{prop}.{k}.demo"
 env = dict(os.environ, GOFLAGS="-mod=mod", GOPROXY="off", GOSUMDB="off", GOTOOLCHAIN="local", W=wt, WT=wt)
 def sh(c, cwd=wt):
-    p = subprocess.run(c, shell=True, cwd=cwd, env=env, stdout=subprocess.PIPE, stderr=subprocess.STDOUT, text=True)
+    p = subprocess.run(["bash", "-o", "pipefail", "-c", c], cwd=cwd, env=env, stdout=subprocess.PIPE, stderr=subprocess.STDOUT, text=True)
     return p.returncode, p.stdout
 def clean():
     sh("git checkout -- . && git clean -fdq")
@@ -47,7 +47,7 @@ shutil.copy(patch, os.path.join(dst, "patch.diff"))
 if os.path.isdir(demo): shutil.copytree(demo, os.path.join(dst, "demo"), dirs_exist_ok=True)
 mt = f"/tmp/mut/{prop}.{k}.meta.txt"
 open(os.path.join(dst, "confirm.log"), "w").write("\n".join(log))
-meta = {"id": f"{prop}-agent{k}", "property": prop.rstrip("b"), "origin": "independent sub-agent given only the property text and a scratch worktree",
+meta = {"id": f"{prop}-agent{k}", "property": prop.rstrip("bc"), "origin": "independent sub-agent given only the property text and a scratch worktree",
         "needs": open(mt).read() if os.path.exists(mt) else "", "ran": "tools/confirm_mutation.py: patch applies and builds; demo fails with / passes without; pinned suite (1458) passes with the patch",
         "confirmed": ok, "detected_by": "TBD"}
 json.dump(meta, open(os.path.join(dst, "meta.json"), "w"), indent=1)
